@@ -33,42 +33,94 @@ if "--replay" in sys.argv[:-1]:
     except OSError:
         pass
 
+S15 = 1_500_000            # 1.5 s in microseconds
+D05 = 86_400_500_000       # one day and half a second
+Q = 15625                  # 1/64 s: dyadic, so float seconds / POSIX timestamps are exact
+
 FIXED = [
     {"t0": 0, "progs": [[["rel", 2000, 1], ["rel", 1000, 2], ["cancel", 2]], [["abs", 1000, 3]]], "ticks": [1000, 1000]},
     {"t0": 0, "progs": [[["now", 1], ["cancel", 1]]], "ticks": []},
     {"t0": 5000, "progs": [[["abs", 6000, 1]], [["abs", 4000, 2]]], "ticks": [500, 500]},
     {"t0": 0, "progs": [[["rel", 1000, 1], ["cancel", 1]], [["rel", 1000, 2]]], "ticks": [500, 500, 500]},
     {"t0": 0, "progs": [[["rel", -1000, 1]], [["rel", 0, 2], ["cancel", 2]]], "ticks": [1000]},
+    # ---- long delays: whole seconds and days must not be dropped (1.5 s and 86400.5 s are exact in binary floating
+    # point, so the timeout a controlled wait is given converts back to the exact number of microseconds)
+    {"t0": 0, "progs": [[["rel", S15, 1], ["rel", D05, 2]], [["abs", S15, 3], ["rel", 500000, 4]]],
+     "ticks": [500000, 1000000, D05 - S15]},
+    {"t0": 0, "progs": [[["rel", S15, 1], ["cancel", 1]], [["abs", D05, 2], ["rel", D05, 3], ["cancel", 3]]],
+     "ticks": [500000, 1000000]},
+    # ---- due times as float seconds / POSIX timestamps (every instant a multiple of 1/64 s: exact)
+    {"t0": 3 * Q, "progs": [[["rel", 2 * Q, 1], ["rel", Q, 2], ["cancel", 2]], [["abs", 4 * Q, 3], ["abs", 2 * Q, 4]]],
+     "ticks": [Q, Q], "repr": "float"},
+    {"t0": 0, "progs": [[["rel", S15, 1], ["rel", -Q, 2]], [["abs", D05, 3], ["cancel", 3]]], "ticks": [S15],
+     "repr": "float"},
+    # ---- recursive scheduling from inside an action, on the scheduler the action is handed
+    {"t0": 0, "progs": [[["rel", 1000, 1]], [["now", 2]]],
+     "bodies": {"1": [["rel", 1000, 3], ["now", 4]], "2": [["abs", 1500, 5]], "3": [["rel", 500, 6]]},
+     "ticks": [1000, 1000], "body_sched": "arg"},
+    {"t0": 0, "progs": [[["now", 1], ["rel", 2000, 2]]], "bodies": {"1": [["rel", 1000, 3], ["cancel", 2]]},
+     "ticks": [500], "body_sched": "outer"},
 ]
 
 
 def gen_case(rng):
-    labels = iter(range(1, 40))
-    t0 = rng.choice([0, 5000])
-    progs = []
+    labels = iter(range(1, 60))
+    rep = "float" if rng.random() < 0.3 else "td"
+    big = rng.random() < 0.3
+    u = Q if rep == "float" else 500            # float cases: every instant is a multiple of 1/64 s
+    t0 = rng.choice([0, 10 * u])
+    offs = [-2 * u, 0, u, 2 * u, 4 * u] + ([S15, S15, D05] if big else [])
+
+    def sched_op():
+        a = next(labels)
+        k = rng.choice(["now", "rel", "rel", "abs", "abs"])
+        if k == "now":
+            return ["now", a]
+        if k == "rel":
+            return ["rel", rng.choice(offs), a]
+        return ["abs", t0 + rng.choice(offs), a]
+    progs, scheduled = [], []
     for _ in range(rng.choice([1, 2, 2])):
         p, mine = [], []
         for _ in range(rng.randint(1, 3)):
             if rng.random() < 0.7 or not mine:
-                a = next(labels)
-                k = rng.choice(["now", "rel", "rel", "abs", "abs"])
-                if k == "now":
-                    op = ["now", a]
-                elif k == "rel":
-                    op = ["rel", rng.choice([-1000, 0, 500, 1000, 2000]), a]
-                else:
-                    op = ["abs", t0 + rng.choice([-1000, 0, 500, 1000, 2000]), a]
-                mine.append(a)
+                op = sched_op()
+                mine.append(op[-1])
+                scheduled.append(op[-1])
             else:
                 op = ["cancel", rng.choice(mine)]
             p.append(op)
         progs.append(p)
-    ticks = [rng.choice([500, 500, 1000, 1500]) for _ in range(rng.choice([0, 1, 2, 3]))]
-    return {"t0": t0, "progs": progs, "ticks": ticks}
+    ticks = [rng.choice([u, u, 2 * u, 3 * u] + ([500000, 1000000, S15, D05 - S15] if big else []))
+             for _ in range(rng.choice([0, 1, 2, 3]))]
+    case = {"t0": t0, "progs": progs, "ticks": ticks}
+    if rep == "float":
+        case["repr"] = "float"
+    if rng.random() < 0.3:
+        # recursive scheduling from inside an action (one or two calls, up to two deep)
+        bodies, depth, work = {}, {a: 0 for a in scheduled}, list(scheduled)
+        while work:
+            a = work.pop(0)
+            if depth[a] >= 2 or (bodies and rng.random() < 0.5):
+                continue
+            ops = []
+            for _ in range(rng.choice([1, 1, 2])):
+                if rng.random() < 0.8:
+                    op = sched_op()
+                    depth[op[-1]] = depth[a] + 1
+                    work.append(op[-1])
+                    scheduled.append(op[-1])
+                else:
+                    op = ["cancel", rng.choice(scheduled)]
+                ops.append(op)
+            bodies[str(a)] = ops
+        case["bodies"] = bodies
+        case["body_sched"] = rng.choice(["arg", "arg", "outer"])
+    return case
 
 
 def size(case, sched):
-    return sum(len(p) for p in case["progs"]) * 100 + len(sched)
+    return (sum(len(p) for p in case["progs"]) + sum(len(b) for b in case.get("bodies", {}).values())) * 100 + len(sched)
 
 
 def run(chk):
@@ -92,6 +144,7 @@ def run(chk):
     notes = {}
     samples = []
     evals = 0
+    inner_starts = [0]
 
     def judge(case, r, fine, sched):
         nonlocal evals
@@ -102,6 +155,9 @@ def run(chk):
         distinct.add(h)
         if any(e[2] == "start" for e in r.log) and k3.preemptions(r.trace) > 0:
             nontrivial.add(h)
+        if case.get("bodies"):
+            inner = {op[-1] for b in case["bodies"].values() for op in b if op[0] in ("now", "rel", "abs")}
+            inner_starts[0] += sum(1 for e in r.log if e[2] == "start" and e[3] in inner)
         for sig, msg in R.oracle(case, r):
             if sig.startswith("NOTE "):
                 notes[sig + "|" + k] = notes.get(sig + "|" + k, 0) + 1
@@ -110,11 +166,13 @@ def run(chk):
                                 "implementation_log": [list(map(str, e)) for e in r.log]}, size=size(case, sched))
 
     lim = 14 if quick else 300
+    ran_base = 0
     with E.rebound():
         for ci, b in enumerate(base):
             if time.time() - t_start > t_budget:
                 chk.notes.append(f"time budget reached after {ci} of {len(base)} base cases")
                 break
+            ran_base += 1
             for kind in R.KINDS:
                 if time.time() - t_start > t_budget * 1.3:
                     break
@@ -130,7 +188,7 @@ def run(chk):
                     n += 1
                     r = box["r"]
                     judge(case, r, False, sched)
-                    if kind == "timeout" and not r.error:
+                    if kind == "timeout" and not r.error and not case.get("bodies"):
                         coq_cases.append(R.g_case_timeout(case, r))
                         coq_meta.append((case, sched))
                     if n == 2 and len(samples) < 5 and ci < 2:
@@ -138,7 +196,7 @@ def run(chk):
                 for _ in range(3 if quick else 30):
                     r = R.run_case(case, k3.random_chooser(chk.rng), fine=False)
                     judge(case, r, False, r.schedule)
-                    if kind == "timeout" and not r.error:
+                    if kind == "timeout" and not r.error and not case.get("bodies"):
                         coq_cases.append(R.g_case_timeout(case, r))
                         coq_meta.append((case, r.schedule))
                 for sched, _ in k3.explore(lambda ch: once(ch, True), 1 if quick else 2, limit=max(5, lim // 3)):
@@ -148,21 +206,26 @@ def run(chk):
                     judge(case, r, True, r.schedule)
         # ImmediateScheduler: exhaustive small scope
         imm_cases, imm_meta = [], []
-        for t0 in (0, 5000):
-            for later in (0, 700):
-                ops = [["now", 1]] + [["rel", d, 1] for d in (-1000, -1, 0, 1, 1000)] + \
-                      [["abs", t0 + d, 1] for d in (-1000, -1, 0, 1, 1000)]
-                for op in ops:
-                    log = R.run_immediate(t0, op, later)
-                    evals += 1
-                    hist["immediate"] = hist.get("immediate", 0) + 1
-                    for sig, msg in R.oracle_immediate(t0, op, later, log):
-                        chk.violation(sig, {"case": {"kind": "immediate", "t0": t0, "op": op, "later": later},
-                                            "what": msg, "implementation_log": log}, size=1)
-                    imm_cases.append(R.g_case_immediate(t0, op, later, log))
-                    imm_meta.append((t0, op, later, log))
-                    distinct.add(json.dumps([t0, op, later]))
-                    nontrivial.add(json.dumps([t0, op, later]))
+        # timedelta / datetime arguments: microsecond offsets; float seconds / POSIX timestamps: offsets that are
+        # multiples of 1/64 s (exact) and the long delays
+        for rep, t0s, ds in (("td", (0, 5000), (-1000, -1, 0, 1, 1000, S15, D05)),
+                             ("float", (0, 10 * Q), (-Q, 0, Q, S15, D05, -D05))):
+            for t0 in t0s:
+                for later in (0, 700) if rep == "td" else (0, Q):
+                    ops = [["now", 1]] + [["rel", d, 1] for d in ds] + [["abs", t0 + d, 1] for d in ds]
+                    for op in ops:
+                        log = R.run_immediate(t0, op, later, rep)
+                        evals += 1
+                        hist["immediate"] = hist.get("immediate", 0) + 1
+                        hist["immediate_float"] = hist.get("immediate_float", 0) + (rep == "float")
+                        for sig, msg in R.oracle_immediate(t0, op, later, log):
+                            chk.violation(sig, {"case": {"kind": "immediate", "t0": t0, "op": op, "later": later,
+                                                         "repr": rep},
+                                                "what": msg, "implementation_log": log}, size=1)
+                        imm_cases.append(R.g_case_immediate(t0, op, later, log))
+                        imm_meta.append((t0, op, later, log))
+                        distinct.add(json.dumps([t0, op, later, rep]))
+                        nontrivial.add(json.dumps([t0, op, later, rep]))
     t_explore = time.time() - t_start
     bad, logs = lib.correspondence("C34", "to", R.T_IMPORTS, R.T_CASE_TY, R.T_MODEL_FN, "toutcome_eqb", coq_cases,
                                    shard=150)
@@ -186,13 +249,26 @@ def run(chk):
     chk.cov["evaluations"] = evals
     chk.cov["distinct_nontrivial"] = len(nontrivial)
     chk.cov["rule"] = ("base case = 1-2 calling threads with 1-3 calls (schedule / relative / absolute / dispose of a "
-                       "returned disposable), delays and due times before/at/after the clock, a clock thread; each base "
+                       "returned disposable), delays and due times before/at/after the clock -- microseconds up to 2 ms, "
+                       "and (30 %%) 1.5 s and 86400.5 s with matching clock steps --, handed over as timedelta/datetime or "
+                       "(30 %%) as float seconds / POSIX timestamps (all instants multiples of 1/64 s), (30 %%) actions "
+                       "that schedule / dispose recursively from inside (1-2 calls, two deep; on the scheduler under "
+                       "test or on the scheduler the action was handed -- for NewThread / ThreadPool the inner one-shot "
+                       "EventLoopScheduler; oracle only), a clock thread; each base "
                        "case is run on TimeoutScheduler, EventLoopScheduler, NewThreadScheduler and ThreadPoolScheduler "
                        "under all schedules with <= %d preemptions (capped), seeded random schedules and fine-grained "
                        "schedules; ImmediateScheduler: exhaustive small scope of (clock, call, delay sign, clock drift); "
                        "distinct = distinct (case, implementation log); non-trivial = an action started and at least one "
                        "preemption (immediate: every case)" % bound)
-    chk.cov["input_distribution"] = dict(hist, base_cases=len(base), distinct_logs=len(distinct))
+    chk.cov["input_distribution"] = dict(
+        hist, base_cases=len(base), distinct_logs=len(distinct), base_cases_run=ran_base,
+        with_delays_of_seconds_or_days=sum(1 for b in base[:ran_base] if any(
+            op[0] in ("rel", "abs") and abs(op[1]) >= 500000 for op in E.all_ops(b))),
+        due_times_as_float=sum(1 for b in base[:ran_base] if b.get("repr") == "float"),
+        with_recursive_scheduling=sum(1 for b in base[:ran_base] if b.get("bodies")),
+        body_calls_on_the_scheduler_argument=sum(1 for b in base[:ran_base] if b.get("bodies")
+                                                 and b.get("body_sched") == "arg"),
+        actions_started_from_inside_an_action=inner_starts[0])
     chk.cov["traces_validated_against_impl"] = len(coq_cases) + len(imm_cases)
     chk.cov["disagreements_checked"] = len([b for b in bad if b >= 0]) + len([b for b in bad2 if b >= 0])
     chk.cov["observations_outside_the_property"] = notes
@@ -220,7 +296,7 @@ def replay(chk, path):
     case = data["case"]
     if case.get("kind") == "immediate":
         with E.rebound():
-            log = R.run_immediate(case["t0"], case["op"], case["later"])
+            log = R.run_immediate(case["t0"], case["op"], case["later"], case.get("repr", "td"))
         bad = R.oracle_immediate(case["t0"], case["op"], case["later"], log)
         print(json.dumps({"case": case, "log": log, "oracle": bad}, indent=1))
         for sig, msg in bad:
